@@ -38,7 +38,9 @@ def r1_decode_once(ctx):
             ctx.ob('C15.R1', 'raw-input-unmodified', not calls, dec.loc(bb, t),
                    'the input of percent_decode_str is the raw segment with no call on the way: %s' % (calls or 'none'))
         # what is returned
-        rsl, _ = backward_slice(dec, 0, defs)
+        # (the error side — an `Err(..)` built by hand or inside map_err — may copy the raw segment; only the success value matters here)
+        rsl, _ = backward_slice(dec, 0, defs, stop=lambda n: 'rv' in n and n['rv']['k'] == 'agg' and n['rv'].get('var') == 'Err'
+                                and strip_generics(n['rv'].get('adt', '')) == 'core::result::Result')
         rcalls = {c for c, _, _ in slice_calls(rsl)}
         allowed = {'percent_encoding::percent_decode_str', 'percent_encoding::PercentDecode::decode_utf8', 'core::result::Result::map_err'}
         extra = sorted(c for c in rcalls if c not in allowed)
@@ -59,11 +61,30 @@ def r1_decode_once(ctx):
     ctx.floor('C15.R1', 'percent-decoding call sites in pavex::request (positive control)', n, 2)
     ex = ctx.need('C15.R1', 'PathParams::extract', ctx.fb.body(CR, RQ + 'path::path_params::PathParams::extract'))
     if ex is not None:
-        d = [bb for bb, t in ex.calls() if callee(t) == RQ + 'path::raw_path_params::EncodedParamValue::decode']
-        in_loop = bool(d) and d[0] in ex.reachable(ex.succ(d[0]))
+        from ..inline import inlined, closures_of
+        DEC = RQ + 'path::raw_path_params::EncodedParamValue::decode'
+        ex = inlined(ctx.fb, ex)
+        parts = [ex] + [inlined(ctx.fb, c) for c in closures_of(ctx.fb, ex)]
+        sites = [(x, bb) for x in parts for bb, t in x.calls() if callee(t) == DEC]
         des = [bb for bb, t in ex.calls() if callee(t) in ('serde_core::de::Deserialize::deserialize', 'serde::de::Deserialize::deserialize')]
-        ctx.ob('C15.R1', 'decode-once-per-parameter', len(d) == 1 and in_loop and bool(des) and not any(x in ex.reachable(ex.succ(des[0])) for x in d),
-               ex.loc(d[0]) if d else ex.loc(), 'decode() is called once, inside the per-parameter loop, before T::deserialize')
+        per_param, before = False, False
+        if len(sites) == 1 and des:
+            x, bb = sites[0]
+            if x is ex:
+                per_param = bb in ex.reachable(ex.succ(bb))                      # inside the per-parameter loop
+                before = bb not in ex.reachable(ex.succ(des[0]))
+            else:
+                # inside a closure handed to an iterator adaptor over the parameters (map / filter_map / try_for_each ..)
+                uses = [cb for cb, j, st in ex.all_assigns() if st['rv']['k'] == 'agg' and st['rv'].get('ak') == 'closure'
+                        and strip_generics(st['rv'].get('def', '')) == x.nid]
+                ads = [cb for cb, t in ex.calls() if (callee(t) or '').startswith('core::iter::traits::iterator::Iterator::')
+                       and any('{closure' in a for a in t['aty'])]
+                per_param = bool(uses) and any(a in ex.reachable([u]) for u in uses for a in ads)
+                before = bool(uses) and not any(u in ex.reachable(ex.succ(des[0])) for u in uses)
+        ctx.ob('C15.R1', 'decode-once-per-parameter', len(sites) == 1 and per_param and before and bool(des),
+               sites[0][0].loc(sites[0][1]) if sites else ex.loc(),
+               'decode() has %d call site(s) in PathParams::extract, its closures and private helpers; it runs once per parameter (loop body or '
+               'iterator-adaptor closure): %s; before T::deserialize: %s' % (len(sites), per_param, before))
     for b in ctx.fb.bodies(CR):
         if b.is_promoted or not b.nid.startswith(RQ + 'path::deserializer'):
             continue
@@ -86,7 +107,8 @@ def r2_typed_parse(ctx):
                  and b.nid.endswith('::deserialize_' + ty)]
         if not ctx.need('C15.R2', 'ValueDeserializer::deserialize_' + ty, roots):
             continue
-        b = roots[0]
+        from ..inline import inlined
+        b = inlined(ctx.fb, roots[0])      # private (possibly generic) helpers inlined, their type parameters substituted
         defs = Defs(b)
         vis = [(bb, t) for bb, t in b.calls() if (callee(t) or '').startswith(('serde_core::de::Visitor::visit_', 'serde::de::Visitor::visit_'))]
         if not ctx.need('C15.R2', 'visit_* call in deserialize_' + ty, vis):
